@@ -1,7 +1,8 @@
 \* C02 liveness under weak fairness on the copiers, the clock, Close and the lifecycle goroutine
 \* (not on the environment): after any end closes or fails the other end observes closure and the
 \* tunnel is unregistered; a tunnel whose target never comes is forgotten; the copiers always catch
-\* up.  "Known" forms: the limiter deviation and the stale replaced source connection are excused.
+\* up.  The bridge AS FOUND; "Known" forms: the limiter deviation, the crash on a nil forwarder and
+\* the stale replaced source connection are excused.
 CONSTANTS
   BUF = 3
   MaxSends = @@MAXS@@
@@ -12,6 +13,8 @@ CONSTANTS
   Replace = @@REPL@@
   ExtCloseOn = TRUE
   DevLimiter = TRUE
+  DevNilFwd = TRUE
+  DevStaleSrc = TRUE
   Gen = FALSE
   Emit = FALSE
 SPECIFICATION LiveSpec
